@@ -302,6 +302,20 @@ def r08_8(ctx: Ctx) -> None:
                    if isinstance(t, ast.Attribute) and isinstance(t.value, ast.Name) and t.value.id in objs}
             own |= {c.func.value.attr for c in q.calls(m) if isinstance(c.func, ast.Attribute) and c.func.attr in ("append", "extend") and isinstance(c.func.value, ast.Attribute)
                     and isinstance(c.func.value.value, ast.Name) and c.func.value.value.id in objs}
+            if mname == "from_folders":
+                ones = [n for n in walk(m.node) if isinstance(n, ast.Assign) and any(isinstance(t, ast.Attribute) and t.attr == "num_unpackstreams_folders" for t in n.targets)]
+                good = False
+                for a in ones:
+                    v = a.value
+                    if isinstance(v, ast.BinOp) and isinstance(v.op, ast.Mult):
+                        lst, cnt = (v.left, v.right) if isinstance(v.left, ast.List) else (v.right, v.left)
+                        good = isinstance(lst, ast.List) and len(lst.elts) == 1 and isinstance(lst.elts[0], ast.Constant) and lst.elts[0].value == 1 \
+                            and isinstance(cnt, ast.Call) and dotted(cnt.func) == "len"
+                    if isinstance(v, ast.ListComp) and isinstance(v.elt, ast.Constant) and v.elt.value == 1 and not v.generators[0].ifs:
+                        good = True
+                ctx.check(good, "R08.8", m, ones[0] if ones else m.node, "without SubStreamsInfo every folder holds exactly one substream",
+                          "from_folders does not describe 'one substream per folder' (`[1] * len(folders)`): an archive without a SubStreamsInfo record - legal, one member per "
+                          "folder - is listed and extracted with the wrong number of members per folder", construct="from_folders stream counts")
             missing = sorted(rd_fields - own)
             ctx.check(not missing, "R08.8", m, m.node, f"{m.qname} defines every field {cls.name}._read defines ({sorted(rd_fields)})",
                       f"{m.qname} builds a {cls.name} without parsing but leaves {missing} undefined although {cls.name}._read defines them: the append path "
@@ -371,7 +385,8 @@ def r08_11(ctx: Ctx, rule: str = "R08.11") -> None:
             cur = sub.slice.id
             incs = [n for n in walk(wr.node) if isinstance(n, ast.AugAssign) and isinstance(n.target, ast.Name) and n.target.id == cur and isinstance(n.op, ast.Add)]
             loopvar = any(isinstance(lp, ast.For) and any(isinstance(t, ast.Name) and t.id == cur for t in ast.walk(lp.target)) for lp in walk(wr.node))
-            ok = bool(incs) and not loopvar and all(flag_fact(wr, i) for i in incs) and flag_fact(wr, sub)
+            unit = all(isinstance(i.value, ast.Constant) and i.value.value == 1 for i in incs)
+            ok = bool(incs) and unit and not loopvar and all(flag_fact(wr, i) for i in incs) and flag_fact(wr, sub)
         ctx.check(ok, rule, wr, sub, "PackInfo.write addresses the compact CRC list with a compact cursor",
                   f"PackInfo._read keeps one CRC per DEFINED stream, but PackInfo.write reads `{norm(sub)}` with the stream index: for a base archive whose packed-stream "
                   "CRC vector is only partially defined an append fails in close() (AssertionError, IndexError under -O) after the old header has been overwritten",
